@@ -233,7 +233,7 @@ def judge_pids(words, box, ppd, fdt=np.float32, selections=None):
         if sorted(r) != sorted(sel):
             return f'selection {sel}: returned keys {sorted(r)}'
         for i, p in enumerate(packed):
-            ref = ref_pid(p, box, ppd)
+            ref = ref_pid(p, box, int(round(ppd)))
             for o in sel:
                 got = r[o][i]
                 want = ref[o]
@@ -328,8 +328,15 @@ def bounded(run):
             nev += len(ws64) * (len(sels) if sels else 32)
             if why:
                 run.bounded_violation('unpack_pids selection x dtype sweep', dict(box=box, ppd=ppd, dtype=fdt.__name__), why)
+    # ppd handed over as a float the way headers store it (NP**(1/3): a few ulp below the integer; also the neighbours of the integer)
+    far = [(k << 32) | (k << 16) | k for k in (0, 1, 767, 1535, 6911)]
+    for box, ppd in ((2000.0, float(6912 ** 3) ** (1 / 3)), (2000.0, float(np.nextafter(6912.0, 0))), (2000.0, float(np.nextafter(6912.0, 1e9))), (500.0, float(1536 ** 3) ** (1 / 3))):
+        why = judge_pids(far + BOUNDARY64[:6], box, ppd, np.float64, [('lagr_pos',), ('pid', 'lagr_pos', 'lagr_idx')])
+        nev += 22
+        if why:
+            run.bounded_violation('unpack_pids selection x dtype sweep', dict(box=box, ppd=repr(ppd), dtype='float64'), f'ppd={ppd!r} (float): {why}')
     run.add_bounded('compiled unpack_rvint / unpack_pids vs independent integer decoder', nev, len(set(ws32)) + len(set(ws64)),
-                    'boundary words + seeded random words; all 9 rvint output modes; pid selections; float32/float64; 3 (BoxSize, ppd) pairs; all 1024 density values x 3 backgrounds',
+                    'boundary words + seeded random words; all 9 rvint output modes incl. strided supplied outputs; pid selections; float32/float64; 3 (BoxSize, ppd) pairs; ppd given as a float a few ulp off the integer; all 1024 density values x 3 backgrounds',
                     [dict(word=hex(ws32[3]), box=2000.0), dict(word=hex(ws64[5]), box=2000.0, ppd=6912)])
 
 
